@@ -46,7 +46,13 @@ PATCHES = [([{"op": "add", "path": "/z", "value": 1}], None), ([{"op": "remove",
            ([{"op": "test", "path": "/t", "value": True}, {"op": "replace", "path": "/n", "value": [1]}], None),
            ([{"op": "test", "path": "/t", "value": 1}], "JSONPatchTestFailure"), ([{"op": "remove", "path": "/zz"}], "JSONPatchError"),
            ([{"op": "nope", "path": "/a"}], "JSONPatchError"), ({"op": "add"}, "not-a-list"), ("not json", "patch-decode"),
-           ([{"op": "add", "path": "/a/-", "value": "é"}], None), ([{"op": "move", "from": "/a", "path": "/a/0"}], "JSONPatchError")]
+           ([{"op": "add", "path": "/a/-", "value": "é"}], None), ([{"op": "move", "from": "/a", "path": "/a/0"}], "JSONPatchError"),
+           # paths that mean something else with --uri-decode / without --no-unicode-escape (OPTION_PATCHES: every combination is run)
+           ([{"op": "add", "path": "/new%20key", "value": 1}], "option"), ([{"op": "replace", "path": "/%61/0", "value": 9}], "option"),
+           ([{"op": "test", "path": "/%73", "value": "é"}], "option"), ([{"op": "move", "from": "/%74", "path": "/moved%2Fhere"}], "option"),
+           ([{"op": "copy", "from": "/a/2/%62", "path": "/%6e"}], "option"), ([{"op": "replace", "path": "/\\u0061/0", "value": 9}], "option"),
+           ([{"op": "add", "path": "/\\u0073", "value": "%41"}], "option"), ([{"op": "remove", "path": "/%5Cu0061"}], "option")]
+OPTION_PATCHES = [i for i, (_, tag) in enumerate(PATCHES) if tag == "option"]
 
 
 def gen(rng, tier):
@@ -94,6 +100,11 @@ def gen(rng, tier):
         for pi in (0, 3, 4):
             yield {"cmd": "patch", "patch": pi, "doc": doc_i, "debug": rng.random() < 0.3, "pretty": False, "out_file": rng.random() < 0.3,
                    "nue": False, "uri": False, "stdin": False}
+    for pi in OPTION_PATCHES:
+        for uri in (False, True):
+            for nue in (False, True):
+                yield {"cmd": "patch", "patch": pi, "doc": 0, "debug": rng.random() < 0.3, "pretty": rng.random() < 0.5, "out_file": rng.random() < 0.3,
+                       "nue": nue, "uri": uri, "stdin": rng.random() < 0.2}
     for pi in range(len(PATCHES)):
         for doc_i in range(1 + len(BAD_DOCS)):
             for debug in (False, True):
